@@ -237,10 +237,10 @@ def setup_fault():
     _STATE["scene_snap"] = scene_snapshot(scene)
 
 
-def h_fault(ctx):
+def h_fault(ctx, kind=None):
     scene = _STATE["scene"]
     site = ctx.choice("fault-site", SITES)
-    kind = ctx.choice("fault-kind", KINDS)
+    kind = kind or ctx.choice("fault-kind", KINDS)
     D.reset(ctx, {})
     del HITS[:]
     FAULT[0], FAULT[1] = site, kind
@@ -445,7 +445,8 @@ def obligations(tier, seed):
         Obligation("nested-override-same-property", h_nested_override,
                    "a scenario stopped (do ... for N steps) while its running child overrides the same property restores the original value",
                    {"which scenarios override": "symbolic"}, enc, ["DummySimulation with logging hooks"], opts=dict(total_timeout=300.0), setup=setup_nested),
-        Obligation("fault-injection", h_fault, "fault at any hooked site, of any kind: state restored, follow-up run equals baseline",
-                   {"sites": len(SITES), "kinds": KINDS, "steps": 3}, enc, ["DummySimulation subclass with fault hooks"],
-                   opts=dict(total_timeout=600.0, per_path_timeout=60.0), setup=setup_fault),
+        *[Obligation(f"fault-injection[{kind}]", (lambda ctx, kind=kind: h_fault(ctx, kind)),
+                     f"a {kind} fault at any hooked site (first or second occurrence): state restored, follow-up runs on the same and on a new scene equal the baseline",
+                     {"sites": len(SITES), "kind": kind, "steps": 4}, enc, ["DummySimulation subclass with fault hooks"],
+                     opts=dict(total_timeout=600.0, per_path_timeout=60.0), setup=setup_fault) for kind in KINDS],
     ]
